@@ -68,6 +68,7 @@ func init() {
 	})
 	Register(&Check{
 		ID:        "C06",
+		Custom:    coTranslation,
 		Level:     "model_checking",
 		Patterns:  []string{"."},
 		Harness:   declsHarness,
